@@ -289,6 +289,15 @@ def run(ctx, anchors=None):
         ctx.inst(not early, "R10.3", "opcount-before-fExec-test", opstep.loc(inc),
                  "no test of fExec precedes ++nOpCount (unexecuted operations are counted)",
                  "fExec is tested at %s before ++nOpCount: operations in unexecuted branches are no longer counted" % (opstep.loc(early[0]) if early else ""))
+    # the push-size limit applies to every decoded push, executed or not (like the op count)
+    psz = [n for (f, n, r) in per_limit.get("MAX_SCRIPT_ELEMENT_SIZE", []) if f is opstep]
+    if psz and incs:
+        fexec_reads2 = [n for n in opstep.nodes() if n["k"] == "ref" and n["n"] == "fExec" and n.get("dk") == "local"]
+        early2 = [r for r in fexec_reads2 if cfg.dominates(r, psz[0])]
+        nested2 = [astq.estr(c) for (c, t) in S.ast_guards(opstep, psz[0]) if any(x["k"] == "ref" and x["n"] == "fExec" for x in walk(c))]
+        ctx.inst(not early2 and not nested2, "R10.3", "push-size-before-fExec-test", opstep.loc(psz[0]),
+                 "the element-size check is evaluated for every decoded push, before the executed/unexecuted test",
+                 "the MAX_SCRIPT_ELEMENT_SIZE check is evaluated only for executed pushes (%s): an over-size push in an unexecuted branch is accepted" % (nested2 or "after a test of fExec"))
     adds = [n for n in opstep.nodes() if n["k"] == "cassign" and n["op"] == "+=" and is_env_field(n["lhs"], "nOpCount")]
     cmps = [n for (f, n, r) in per_limit.get("MAX_OPS_PER_SCRIPT", []) if f is opstep and not any(x is incs[0] for x in walk(n))] if incs else []
     if len(adds) != 1 or len(cmps) != 1:
@@ -393,6 +402,7 @@ def run(ctx, anchors=None):
 
 
 MUTANTS = [
+    dict(name="push-size-only-when-executed", file="script/interpreter.cpp", find="            if (vchPushValue.size() > MAX_SCRIPT_ELEMENT_SIZE)\n                return set_error(serror, SCRIPT_ERR_PUSH_SIZE);\n", replace="            if (fExec && vchPushValue.size() > MAX_SCRIPT_ELEMENT_SIZE)\n                return set_error(serror, SCRIPT_ERR_PUSH_SIZE);\n", expect=["R10.3:push-size-before-fExec-test"]),
     dict(name="altstack-not-counted", file="script/interpreter.cpp", find="if (stack.size() + altstack.size() > MAX_STACK_SIZE)\n                return set_error(serror, SCRIPT_ERR_STACK_SIZE);\n        }\n    }",
          replace="if (stack.size() > MAX_STACK_SIZE)\n                return set_error(serror, SCRIPT_ERR_STACK_SIZE);\n        }\n    }", expect=["R10.7:quantity=MAX_STACK_SIZE"]),
     dict(name="push-size-ge", file="script/interpreter.cpp", find="vchPushValue.size() > MAX_SCRIPT_ELEMENT_SIZE",
